@@ -13,10 +13,10 @@ import (
 	epb "github.com/google/gce-tcb-verifier/proto/endorsement"
 	"github.com/google/gce-tcb-verifier/verify"
 	cpb "github.com/google/go-sev-guest/proto/check"
+	spb "github.com/google/go-sev-guest/proto/sevsnp"
 	sgvalidate "github.com/google/go-sev-guest/validate"
 	tcpb "github.com/google/go-tdx-guest/proto/checkconfig"
 	tdvalidate "github.com/google/go-tdx-guest/validate"
-	spb "github.com/google/go-sev-guest/proto/sevsnp"
 	tpmpb "github.com/google/go-tpm-tools/proto/attest"
 	"google.golang.org/protobuf/proto"
 
